@@ -18,6 +18,14 @@ tab-scalar / tab-tab : all seven arithmetic operators table-with-scalar (both si
 agg      : aggregate and window over key-name x value-name patterns (same column twice, two functions,
            repeated stored names, key named like an output, repeated key).
 
+agg2     : aggregate and window where a KEY or an `apply` name equals a would-be suffixed output name: value columns all
+           named 'v' / 'A b' requested 2 or 3 times (distinct columns or one column repeated) for every function, key named
+           <san>_<fn>2 / <san>_<fn> / <san>_<fn>3 / 'k', apply names <san>_<fn>{2, '', 3, 2+3, 22}: outputs pairwise distinct,
+           key 0 keeps its name, aggregate outputs match <san>_<fn>[n], apply outputs match <apply name>[n].
+tab-tab+ : table-with-table arithmetic over name pairs that are DIFFERENT stored names sanitising alike ('Price'/'price',
+           'unit cost'/'unit_cost', '$$$'/'%', 'a'/'A', 'a '/'a', 'A b'/'a_b', '1x'/'c1x', 'sum'/'sum_'), both orders, alone and
+           beside an equal-name / right-absent column pair, all seven operators                -> that column unnamed.
+
 Oracle: plain lists of names; rules transcribed from the statement.
 """
 import itertools
@@ -462,6 +470,78 @@ def eval_agg(case):
 
 
 # ---------------------------------------------------------------------------------------------
+# aggregate / window: a key or an apply name that equals a would-be SUFFIXED output name
+# ---------------------------------------------------------------------------------------------
+AGG2_VALUE_NAMES = ['v', 'A b']
+AGG2_KEY_SUFFIXES = ['2', '', '3', None]            # key named <san>_<fn><suffix>; None: a key named 'k'
+AGG2_APPLY = [[], ['2'], [''], ['3'], ['2', '3'], ['22']]
+
+
+def eval_agg2(case):
+    vn, fn, meth, reps = ev(case['v']), case['fn'], case['meth'], case['reps']
+    base = f'{san_base(vn)}_{fn}'
+    kn = 'k' if case['ksuf'] is None else base + case['ksuf']
+    vals = [[1.0, 2.0, 4.0], [3.0, 4.0, 8.0], [5.0, 6.0, 7.0]]
+    t = Table([Vector([1, 1, 2], name=kn)] + [Vector(vals[j], name=vn) for j in range(3)])
+    K = t.cols()[0]
+    V = list(t.cols()[1:])
+    cols = [V[0]] * reps if case['same'] else V[:reps]
+    apply_names = [base + sfx for sfx in case['apply']]
+    kw = {fn + '_over': cols}
+    if apply_names:
+        kw['apply'] = {an: (V[0], lambda xs: len(xs)) for an in apply_names}
+    call = f'{meth}(over=[{kn!r}], {fn}_over={reps} columns named {vn!r}' + (' (one column repeated)' if case['same'] else '') + \
+           (f', apply={apply_names!r}' if apply_names else '') + ')'
+    try:
+        r = getattr(t, meth)(over=[K], **kw)
+    except Exception as e:
+        return [Fail(f'C18:{meth}:raises', f'{call} raised {type(e).__name__}: {e}')]
+    fails = []
+    m = truthful(r)
+    if m:
+        fails.append(Fail(f'C03:{meth}:truthful', m))
+    try:
+        got = r.column_names()
+    except Exception as e:
+        return fails + [Fail(f'C18:{meth}:column_names-raises', f'{type(e).__name__}: {e}')]
+    desc = f'{call} -> {got!r}'
+    n_out = 1 + reps + len(apply_names)
+    if len(got) != n_out:
+        return fails + [Fail(f'C18:{meth}:output-count', desc, n_out, len(got))]
+    if any(not isinstance(g, str) for g in got) or len(set(got)) != len(got):
+        fails.append(Fail(f'C18:{meth}:output-names-not-distinct', desc, 'pairwise distinct', got))
+    if got[0] != kn:
+        fails.append(Fail(f'C18:{meth}:key-name', desc + '; key 0', kn, got[0]))
+    pat = re.compile(re.escape(base) + r'\d*')
+    outs = got[1:1 + reps]
+    if not all(isinstance(o, str) and pat.fullmatch(o) for o in outs):
+        fails.append(Fail(f'C18:{meth}:aggregate-name-pattern', desc, f'{base}[n] for each of the {reps} requests', outs))
+    aouts = got[1 + reps:]
+    for an, o in zip(apply_names, aouts):
+        if not (isinstance(o, str) and re.fullmatch(re.escape(an) + r'\d*', o)):
+            fails.append(Fail(f'C18:{meth}:apply-name-pattern', desc + f'; apply output for {an!r}', an + '[n]', o))
+            break
+    if base not in got:
+        fails.append(Fail(f'C18:{meth}:needless-suffix', desc + f'; {base!r} is free but unused', base, got))
+    return fails
+
+
+# table-with-table arithmetic: names that are different strings but sanitise alike (case, spacing, punctuation only)
+TT_LOOKALIKE_PAIRS = [('Price', 'price'), ('unit cost', 'unit_cost'), ('$$$', '%'), ('a', 'A'), ('a ', 'a'), ('A b', 'a_b'), ('1x', 'c1x'),
+                      ('sum', 'sum_')]
+
+
+def lookalike_tab_tab_cases():
+    for l, r_ in TT_LOOKALIKE_PAIRS:
+        for ln, rn in ((l, r_), (r_, l)):
+            for sym in ARITH:
+                yield {'op': 'tab-tab', 'left': lit([ln]), 'right': lit([rn]), 'sym': sym}
+                # beside a column pair with equal names / an absent right name: the rule is per column
+                yield {'op': 'tab-tab', 'left': lit([ln, 'q']), 'right': lit([rn, 'q']), 'sym': sym}
+                yield {'op': 'tab-tab', 'left': lit(['q', ln]), 'right': lit([None, rn]), 'sym': sym}
+
+
+# ---------------------------------------------------------------------------------------------
 def chains(ops, n):
     for ln in range(1, n + 1):
         for c in itertools.product(ops, repeat=ln):
@@ -469,6 +549,11 @@ def chains(ops, n):
 
 
 def cases(tier, seed):
+    yield from cases_v1(tier, seed)
+    yield from cases_v2(tier, seed)
+
+
+def cases_v1(tier, seed):
     q = tier == 'quick'
     # vectors
     for data in VEC_DATA:
@@ -515,6 +600,18 @@ def cases(tier, seed):
                                                'over': over, 'fa': fa, 'ca': ca, 'fb': fb}
 
 
+def cases_v2(tier, seed):
+    yield from lookalike_tab_tab_cases()
+    for meth in ('aggregate', 'window'):
+        for vn in AGG2_VALUE_NAMES:
+            for fn in FUNCS:
+                for ksuf in AGG2_KEY_SUFFIXES:
+                    for reps in (2, 3):
+                        for same in (False, True):
+                            for ap in AGG2_APPLY:
+                                yield {'op': 'agg2', 'meth': meth, 'v': lit(vn), 'fn': fn, 'ksuf': ksuf, 'reps': reps, 'same': same, 'apply': ap}
+
+
 def eval_join_empty(case):
     names = ev(case['names'])
     t = mk_table(names)
@@ -533,7 +630,7 @@ def eval_join_empty(case):
 
 
 EVAL = {'vec-keep': eval_vec_keep, 'vec-math': eval_vec_math, 'tab-build': eval_tab_build, 'tab-scalar': eval_tab_scalar,
-        'tab-tab': eval_tab_tab, 'tab-chain': eval_tab_chain, 'agg': eval_agg, 'join-empty': eval_join_empty}
+        'tab-tab': eval_tab_tab, 'tab-chain': eval_tab_chain, 'agg': eval_agg, 'join-empty': eval_join_empty, 'agg2': eval_agg2}
 
 
 def evaluate(case):
@@ -553,6 +650,8 @@ def nontrivial(case):
         return (op, tuple(case['chain'])) if len(case['chain']) > 1 else None
     if op == 'tab-tab':
         return (op, case['left'], case['right'])
+    if op == 'agg2':
+        return (op, case['meth'], case['v'], case['ksuf'], case['reps'], case['same'], tuple(case['apply']))
     if op == 'agg':
         return (op, case['meth'], case['k1'], case['x'] == case['y'], case['ca'], case['fb'] is not None, case['over'])
     return (op, case.get('how'), case.get('sym'))
@@ -562,7 +661,8 @@ if __name__ == '__main__':
     main('C18', cases, evaluate,
          rule='all chains of name-keeping vector operations; all operator x name-pair x derived-operand combinations; all table '
               'builders over all name lists of width <= 3; all chains of structural table operations incl. joins and >>; '
-              'table-scalar and table-table arithmetic over all name pairs; aggregate/window over key/value name patterns. '
+              'table-scalar and table-table arithmetic over all name pairs (incl. pairs differing only in case / spacing / punctuation); '
+              'aggregate/window over key/value name patterns, incl. keys and apply names equal to would-be suffixed output names. '
               'distinct = distinct operation chains / operator-name patterns',
          bound=lambda tier: {'names': len(NAMES), 'vec_chain': 2 if tier == 'quick' else 3, 'tab_chain': 2 if tier == 'quick' else '3 (width<=2), 2 (width 3)',
                              'tab_width': 2 if tier == 'quick' else 3, 'build_width': 3},
